@@ -138,3 +138,7 @@ mod tests {
         assert_eq!(tmp[1], 10);
     }
 }
+
+#[cfg(kani)]
+#[path = "/verif/hooks/core/io.rs"]
+mod verif_hooks;
